@@ -49,6 +49,7 @@ pub fn quantity_json(q: &Quantity) -> J {
         "v": f64_json(q.unsafe_value().to_f64()),
         "unit": unit_json(q.unit()),
         "unit_text": q.unit().to_string(),
+        "text": plain(&q.pretty_print()),
         "simp": q.can_simplify(),
     })
 }
